@@ -97,6 +97,14 @@ int ops_core(int n, char **a) {
         printf(" 111111\n");
         return 1;
     }
+    if (isop(op, "genfn3") && n == 4) {
+        H3Index h = pH(a[1]); H3Index o = pH(a[2]);
+        H3Index o1 = o; int o2 = (int)(uint32_t)o;
+        H3Error e1 = H3_EXPORT(getDirectedEdgeOrigin)(h, &o1);
+        H3Error e2 = H3_EXPORT(maxFaceCount)(h, &o2);
+        printf("ok %d %d %" PRIx64 " %d %u 111\n", H3_EXPORT(isValidDirectedEdge)(h), (int)e1, o1, (int)e2, (unsigned)o2);
+        return 1;
+    }
     if (isop(op, "ispent") && n == 2) { printf("ok %d\n", H3_EXPORT(isPentagon)(pH(a[1]))); return 1; }
     if (isop(op, "parent") && n == 3) {
         H3Index out = 0; H3Error e = H3_EXPORT(cellToParent)(pH(a[1]), (int)pI(a[2]), &out);
